@@ -678,6 +678,23 @@ func (w *Wallet) ReceiveHTLC(token cashu.Token, preimage string) (uint64, error)
 	return 0, errors.New("ecash does not have an HTLC spending condition")
 }
 
+// inputsWithoutDLEQ returns a copy of the proofs without their DLEQ proofs.
+// The DLEQ proof of a stored or received proof carries the blinding factor r
+// (and the mint's own e, s), which would let the mint link the proof to the
+// blind signature it issued, so it must never be part of a request to a mint.
+// The proofs of the caller are left untouched.
+func inputsWithoutDLEQ(proofs cashu.Proofs) cashu.Proofs {
+	if proofs == nil {
+		return nil
+	}
+	inputs := make(cashu.Proofs, len(proofs))
+	for i, proof := range proofs {
+		proof.DLEQ = nil
+		inputs[i] = proof
+	}
+	return inputs
+}
+
 type swapRequestPayload struct {
 	inputs  cashu.Proofs
 	outputs cashu.BlindedMessages
@@ -708,7 +725,7 @@ func (w *Wallet) createSwapRequest(proofs cashu.Proofs, mint *walletMint) (swapR
 
 func swap(mint string, swapRequest swapRequestPayload) (cashu.Proofs, error) {
 	request := nut03.PostSwapRequest{
-		Inputs:  swapRequest.inputs,
+		Inputs:  inputsWithoutDLEQ(swapRequest.inputs),
 		Outputs: swapRequest.outputs,
 	}
 	swapResponse, err := client.PostSwap(mint, request)
@@ -925,7 +942,7 @@ func (w *Wallet) Melt(quoteId string) (*nut05.PostMeltQuoteBolt11Response, error
 
 	meltBolt11Request := nut05.PostMeltBolt11Request{
 		Quote:   quote.QuoteId,
-		Inputs:  proofs,
+		Inputs:  inputsWithoutDLEQ(proofs),
 		Outputs: outputs,
 	}
 	meltBolt11Response, err := client.PostMeltBolt11(mint.mintURL, meltBolt11Request)
@@ -1190,7 +1207,7 @@ func (w *Wallet) swapProofs(proofs cashu.Proofs, from, to *walletMint) (uint64, 
 	}
 
 	// request from mint to pay invoice from the mint quote request
-	meltBolt11Request := nut05.PostMeltBolt11Request{Quote: meltQuoteResponse.Quote, Inputs: proofs}
+	meltBolt11Request := nut05.PostMeltBolt11Request{Quote: meltQuoteResponse.Quote, Inputs: inputsWithoutDLEQ(proofs)}
 	meltBolt11Response, err := client.PostMeltBolt11(from.mintURL, meltBolt11Request)
 	if err != nil {
 		return 0, fmt.Errorf("error melting token: %v", err)
@@ -1428,7 +1445,7 @@ func (w *Wallet) swapToSend(
 	cashu.SortBlindedMessages(blindedMessages, secrets, rs)
 
 	// call swap endpoint
-	swapRequest := nut03.PostSwapRequest{Inputs: proofsToSwap, Outputs: blindedMessages}
+	swapRequest := nut03.PostSwapRequest{Inputs: inputsWithoutDLEQ(proofsToSwap), Outputs: blindedMessages}
 	swapResponse, err := client.PostSwap(mint.mintURL, swapRequest)
 	if err != nil {
 		return nil, err
